@@ -441,6 +441,7 @@ func C03(cfg Cfg) int {
 	}
 	c03RandomKills(c, r)
 	c03Strace(c)
+	c03Daemon(c, r)
 	if run.Get("events_checked") == 0 || run.Get("kills") == 0 {
 		run.Inconclusive("no kill or no logged event was checked")
 	}
@@ -667,5 +668,113 @@ func c03Strace(c *c03Run) {
 	}
 	if released == 0 || len(done) == 0 {
 		c.run.Inconclusive(fmt.Sprintf("strace log shows %d value-log writes and %d SIGN/REL lines", len(done), released))
+	}
+}
+
+// c03Daemon is the wire variant: the real daemon is SIGKILLed at random instants while clients sign over
+// TLS/gRPC; after each restart a conflicting twin of every duty whose signature a client had RECEIVED before
+// the kill must be refused.
+func c03Daemon(c *c03Run, r *rand.Rand) {
+	cycles := c.cfg.N(6, 120)
+	w, err := NewWireRig(c.cfg, "c03-daemon", 8, nil)
+	if err != nil {
+		c.run.Inconclusive("cannot start daemon: " + err.Error())
+		return
+	}
+	defer w.Close()
+	env := NewWireEnv(c.run, w)
+	if !env.WireKeys(8) {
+		return
+	}
+	type rel struct {
+		key      int
+		prop     bool
+		src, tgt uint64
+	}
+	var released []rel
+	var mu sync.Mutex
+	epoch := uint64(10)
+	for cy := 0; cy < cycles && c.run.NumViolations() < 5; cy++ {
+		stop := make(chan struct{})
+		var wg sync.WaitGroup
+		for g := 0; g < 4; g++ {
+			wg.Add(1)
+			go func(g int) {
+				defer wg.Done()
+				gr := rand.New(rand.NewSource(int64(cy*10 + g)))
+				for {
+					select {
+					case <-stop:
+						return
+					default:
+					}
+					mu.Lock()
+					epoch += 2
+					e := epoch
+					mu.Unlock()
+					ki := 2*g + gr.Intn(2)
+					if gr.Intn(3) == 0 {
+						p := mkProp(env.Keys[ki], env.Names[ki], 0, 0xaa)
+						p.Data.Slot = e
+						if v, sig := env.SignProp(ViaWire, p); v == core.ResultSucceeded && len(sig) > 0 {
+							mu.Lock()
+							released = append(released, rel{key: ki, prop: true, tgt: e})
+							mu.Unlock()
+						}
+					} else {
+						a := mkAtt(env.Keys[ki], env.Names[ki], 0, 1, 0xaa)
+						a.Data.Source.Epoch, a.Data.Target.Epoch = e, e+1
+						if v, sig := env.SignAtt(ViaWire, a); v == core.ResultSucceeded && len(sig) > 0 {
+							mu.Lock()
+							released = append(released, rel{key: ki, src: e, tgt: e + 1})
+							mu.Unlock()
+						}
+					}
+				}
+			}(g)
+		}
+		time.Sleep(time.Duration(30+r.Intn(200)) * time.Millisecond)
+		w.D.Kill()
+		close(stop)
+		wg.Wait()
+		c.run.Count("daemon_kills", 1)
+		c.run.Eval(1)
+		if err := w.D.Start(); err != nil {
+			c.run.Count("daemon_restart_failed_fail_closed", 1)
+			c.run.Inconclusive("daemon did not restart: " + err.Error())
+			return
+		}
+		_ = w.Dial("")
+		mu.Lock()
+		check := append([]rel{}, released...)
+		mu.Unlock()
+		// Probe the most recent releases of every key (older ones are implied by monotonicity, and are probed in earlier cycles).
+		seen := map[int]int{}
+		for i := len(check) - 1; i >= 0; i-- {
+			rl := check[i]
+			if seen[rl.key] >= 3 {
+				continue
+			}
+			seen[rl.key]++
+			c.run.Count("daemon_probes", 1)
+			if rl.prop {
+				p := mkProp(env.Keys[rl.key], env.Names[rl.key], 0, 0x77)
+				p.Data.Slot = rl.tgt
+				if v, sig := env.SignProp(ViaWire, p); v == core.ResultSucceeded || len(sig) > 0 {
+					c.run.Violate(fmt.Sprintf("after SIGKILL and restart the daemon signed a different proposal at slot %d although a client had received one before the kill", rl.tgt), rl)
+				}
+			} else {
+				a := mkAtt(env.Keys[rl.key], env.Names[rl.key], 0, 1, 0x77)
+				a.Data.Source.Epoch, a.Data.Target.Epoch = rl.src, rl.tgt
+				if v, sig := env.SignAtt(ViaWire, a); v == core.ResultSucceeded || len(sig) > 0 {
+					c.run.Violate(fmt.Sprintf("after SIGKILL and restart the daemon signed a different attestation %d->%d although a client had received one before the kill", rl.src, rl.tgt), rl)
+				}
+			}
+		}
+	}
+	c.run.Count("daemon_signatures_received", len(released))
+	c.run.Distinct("real daemon killed at random instants")
+	if len(released) == 0 {
+		c.run.Inconclusive("the daemon variant received no signature")
 	}
 }
